@@ -41,15 +41,18 @@ var headerPool = make(chan *storage.Header, PoolSize)
 func borrowHeader() *storage.Header {
 	select {
 	case hdr := <-headerPool:
+		verifHook("BorrowHeader", 0, uintptr(unsafe.Pointer(hdr)))
 		return hdr
 	default:
 		hdr := new(storage.Header)
 		runtime.SetFinalizer(hdr, destroyHeader)
+		verifHook("BorrowHeader", 0, uintptr(unsafe.Pointer(hdr)))
 		return hdr
 	}
 }
 
 func returnHeader(hdr *storage.Header) {
+	verifHook("ReturnHeader", 0, uintptr(unsafe.Pointer(hdr)))
 	destroyHeader(hdr)
 	if len(headerPool) < cap(headerPool) {
 		headerPool <- hdr
@@ -65,11 +68,13 @@ var densePool = make(chan *Dense, PoolSize)
 func borrowDense() *Dense {
 	select {
 	case t := <-densePool:
+		verifHook("BorrowDense", 0, uintptr(unsafe.Pointer(t)))
 		return t
 	default:
 		t := new(Dense)
 		t.e = StdEng{}
 		// t.oe = StdEng{}
+		verifHook("BorrowDense", 0, uintptr(unsafe.Pointer(t)))
 		return t
 	}
 	// return densePool.Get().(*Dense)
@@ -253,6 +258,11 @@ func borrowOpOpt() *OpOpt {
 	// 	return new(OpOpt)
 	// }
 
+	if verifEnabled {
+		oo := optPool.Get().(*OpOpt)
+		verifHook("BorrowOpt", 0, uintptr(unsafe.Pointer(oo)))
+		return oo
+	}
 	return optPool.Get().(*OpOpt)
 
 	// if fo, err := optPool.Get(); err == nil {
@@ -262,6 +272,7 @@ func borrowOpOpt() *OpOpt {
 }
 
 func returnOpOpt(oo *OpOpt) {
+	verifHook("ReturnOpt", 0, uintptr(unsafe.Pointer(oo)))
 	oo.reuse = nil
 	oo.incr = nil
 	oo.unsafe = false
